@@ -417,11 +417,11 @@ def main():
                        'agreement with distance_bin / breadthdist / reachdist is judged on the binarised network with empty diagonal (their documented domain), off-diagonal pairs only']
     # T-gen: re-extract the core update steps from /repo's current source (translate/cores.py); the generated
     # obligations say the extracted IR is the reference program whose interpreter is proved equal to the model
-    ck.cov['cores'] = cores.generate(families=['comp'])
+    ck.cov['cores'] = cores.generate(families=['comp', 'bin', 'bfs', 'reach'])
     for p_ in ck.cov['cores']['problems']:
         ck.corr_break('core extractor (translate/cores.py)', p_)
     ok = ck.lean_gate(['BctVerif.Props.C16'], extra_modules=['BctVerif.Model.Comp'])
-    ck.lean_gate([], gen_modules=['BctVerif.Gen.CoresComp'])
+    ck.lean_gate([], gen_modules=['BctVerif.Gen.CoresComp', 'BctVerif.Gen.CoresBin', 'BctVerif.Gen.CoresBfs', 'BctVerif.Gen.CoresReach'])
     if ck.tier == 'thorough' and ok:
         ck.leanchecker(['BctVerif.Props.C16', 'BctVerif.Model.Comp'])
     if ck.replay:
